@@ -36,7 +36,7 @@
     pint's yaml.v3 and Prometheus' yaml.v3 decode the same bytes (same syntax errors, same forest). *)
 From Coq Require Import List String Ascii Arith Bool NArith.
 From PintV Require Import Common.Bytes Model.Yaml Model.Parser Model.Routing Model.PromLoader Model.Reader Model.Comments
-     Proofs.C19_relaxed Proofs.C01_prom Proofs.C01_rule Proofs.C01_group Proofs.C01_mask Proofs.C01_witness Run.C19 Run.C01.
+     Proofs.C19_relaxed Proofs.C01_prom Proofs.C01_rule Proofs.C01_group Proofs.C01_mask Proofs.C01_witness Proofs.C01_tables Gen.C01 Run.C19 Run.C01.
 Import ListNotations.
 Open Scope string_scope.
 Open Scope list_scope.
@@ -91,6 +91,30 @@ Theorem C01_mask_id :
     r_comments (reader_impl tp f) = [] /\ r_diags (reader_impl tp f) = [].
 Proof. intros tp f H. destruct (mask_id tp f H) as (A & B & C & D & _). auto. Qed.
 Print Assumptions C01_mask_id.
+
+(** The finite key tables both sides hinge on are those of the current sources (Gen/C01.v is regenerated from strict.go,
+    parser.go and the vendored rulefmt.go on every run): pint's strict rule keys = the fields of rulefmt.Rule = what
+    [field_of] / [rule_fields] know; pint's group keys = the fields of rulefmt.RuleGroup + the Thanos-only key, and the model's
+    [group_entry] rejects every other key; the top-level key; the Go types of the Prometheus fields are the ones the decoder
+    model implements. *)
+Theorem C01_key_tables :
+  (map field_name all_fields = pint_rule_keys /\ pint_rule_loop_keys = pint_rule_keys /\ pint_rule_keys = rule_fields) /\
+  (forall k, In k pint_rule_keys -> field_of k <> FUnknown) /\ (forall k, ~ In k pint_rule_keys -> field_of k = FUnknown) /\
+  (forall k, In k pint_group_keys <-> In k (group_fields ++ ["partial_response_strategy"])) /\
+  (forall plines metric_ok lname_ok lvalue_ok dur_ok int_ok thanos lines g k v,
+      ~ In (node_value k) pint_group_keys ->
+      exists g', group_entry plines metric_ok lname_ok lvalue_ok dur_ok int_ok thanos lines g k v = inl g') /\
+  pint_top_keys = map fst prom_groups_fields /\
+  map fst prom_rule_fields = rule_fields /\ map fst prom_group_fields = group_fields /\
+  map snd prom_rule_fields = ["string"; "string"; "string"; "model.Duration"; "model.Duration"; "map[string]string"; "map[string]string"] /\
+  map snd prom_group_fields = ["string"; "model.Duration"; "*model.Duration"; "int"; "[]Rule"; "map[string]string"] /\
+  prom_groups_fields = [("groups", "[]RuleGroup")].
+Proof.
+  split; [split; [exact (proj1 rule_keys_table)|split; [exact (proj2 rule_keys_table)|exact rule_keys_agree]]|].
+  split; [exact field_of_known|]. split; [exact field_of_unknown|]. split; [exact group_keys_agree|].
+  split; [exact group_entry_unknown_key|]. split; [exact top_keys_agree|]. repeat split; reflexivity.
+Qed.
+Print Assumptions C01_key_tables.
 
 (** ---- refutations of the full statement: the witnesses of corpus/C01 as serialised from yaml.v3, with the answers the
     real libraries gave for every scalar (n_ann); both verdicts are evaluated by the models. ---- *)
